@@ -15,6 +15,7 @@ INDEX = {'A': np.array([1000, 1001, 1002, 1003, 1004, 1005], dtype='float64'),
          'B': np.array([20, 21, 22, 23, 24, 25], dtype='float64')}
 BOUNDS = {('A', 'all'): (1000.0, 1005.0), ('A', 'win'): (1002.0, 1004.0), ('B', 'all'): (20.0, 25.0), ('B', 'win'): (22.0, 24.0),
           ('N', 'all'): (float('nan'),) * 2, ('N', 'win'): (float('nan'),) * 2, ('U', 'all'): (0.0, 9999.0)}
+PAYLOAD = {'P0': bytes(range(40, 60)), 'P1': bytes(range(90, 97)) * 40}
 VALS = {('int', '1'): I(1), ('float', '1'): F(1.0), ('bool', '1'): BOOL(True), ('str', '1'): S('1'),
         ('int', '0'): I(0), ('float', '0'): F(0.0), ('float', 'nz'): F(-0.0)}
 
@@ -42,19 +43,26 @@ def tlc_enumerate(cfg='MC_WriteHistory_enum.cfg'):
     return hs, {'states': r['states'], 'distinct': r['distinct']}
 
 
-def _skeleton(p, fid):
-    p.file(fid, vrl=256)
+def _skeleton(p, fid, final=None):
+    """The fixed skeleton.  With `final` (fresh process) every object is created directly with its final values."""
+    f = final or {}
+    p.file(fid, vrl=f.get('vrl', 256))
     lf = p.lf(fid, lf=fid, fh_id='HISTORY')
     o = {'lf': lf}
-    o['o1'] = p.origin(lf, name='O1', origin_reference=5, file_type=S('1'))
+    o['o1'] = p.origin(lf, name='O1', origin_reference=5, file_type=f.get('file_type', S('1')))
     o['o2'] = p.origin(lf, name='O2', fsn=2, origin_reference=9)
     o['idx'] = p.channel(lf, 'INDEX')
-    o['val'] = p.channel(lf, 'VAL')
-    o['fr'] = p.frame(lf, 'FR', [o['idx'], o['val']], index_type=EN('FrameIndexType', 'BOREHOLE_DEPTH'))
-    o['z'] = p.add(lf, 'zone', 'ZA')
-    o['par'] = p.add(lf, 'parameter', 'PAR', zones=L(R(o['z'])), values=L(I(1)))
+    o['val'] = p.channel(lf, 'VAL', cast=f.get('cast'))
+    bkw = {}
+    if 'bounds' in f:
+        bkw = {'index_min': F(f['bounds'][0]), 'index_max': F(f['bounds'][1])}
+    o['fr'] = p.frame(lf, 'FR', [o['idx'], o['val']], index_type=EN('FrameIndexType', 'BOREHOLE_DEPTH'), **bkw)
+    o['z'] = p.add(lf, 'zone', f.get('name', 'ZA'), origin_reference=f.get('origin'))
+    o['par'] = p.add(lf, 'parameter', 'PAR', zones=L(R(o['z'])), values=L(f.get('values', I(1))))
     o['grp'] = p.add(lf, 'group', 'GRP', object_list=L(R(o['z'])))
-    o['com'] = p.add(lf, 'comment', 'COM', text=L(S('t0')))
+    o['com'] = p.add(lf, 'comment', 'COM', text=L(*f.get('text', [S('t0')])))
+    o['nf'] = p.add(lf, 'no_format', 'BLOB', consumer_name=S('SOMEONE'))
+    p.nofmt(lf, o['nf'], PAYLOAD[f.get('pay', 'P0')])
     return o
 
 
@@ -113,6 +121,12 @@ def history_program(pid, hist):
             texts = [S(f's{n}-{j}') for j in range(op['n'])]
             p.set(o['com'], 'text', L(*texts))
             final['text'] = texts
+        elif k == 'relabel':
+            p.set_sul(1, 'max_record_length', op['vrl'])
+            final['vrl'] = op['vrl']
+        elif k == 'replace':
+            p.nofmt_replace(1, PAYLOAD[op['pay']])
+            final['pay'] = op['pay']
         elif k == 'write':
             nw += 1
             _write(p, 1, o, op, f'w{nw}.dlis', arrays)
@@ -123,26 +137,9 @@ def history_program(pid, hist):
             last_write = op
         else:
             raise MachineryError(f'unknown model operation {k}')
-    # the fresh process: the final specification, built directly, and the data of the last write
+    # the fresh process: the final specification, built directly (no assignment after creation), and the data of the last write
     p.next_proc(fresh=True)
-    o = _skeleton(p, 101)
-    for key, v in final.items():
-        if key == 'values':
-            p.set(o['par'], 'values', L(v))
-        elif key == 'file_type':
-            p.set(o['o1'], 'file_type', v)
-        elif key == 'name':
-            p.rename(o['z'], v)
-        elif key == 'origin':
-            p.set_origin_ref(o['z'], v)
-        elif key == 'cast':
-            if v is not None:
-                p.set_cast(o['val'], v)
-        elif key == 'bounds':
-            p.set(o['fr'], 'index_min', F(v[0]))
-            p.set(o['fr'], 'index_max', F(v[1]))
-        elif key == 'text':
-            p.set(o['com'], 'text', L(*v))
+    o = _skeleton(p, 101, final)
     _write(p, 101, o, last_write, 'fresh.dlis', {})
     return p.build()
 
